@@ -20,6 +20,11 @@ Oracle (causal, from the wire): a call's Deferred fires exactly once;
   * otherwise it fires during the caller's connectionLost with that very reason;
   * calls made after connectionLost return an already-failed Deferred (the loss reason) and write
     nothing; requiresAnswer=False returns None;
+  * re-entrant follow-ups: about a third of the calls carry a user callback/errback that issues one
+    more callRemote from wherever the Deferred fires (inside an answer delivery, inside
+    connectionLost handling while other pending calls are still being failed, or inside callRemote
+    for calls after the loss).  The follow-up is monitored like any other call; one issued once the
+    transport has reported the loss (connectionLost entered) counts as "after the connection is lost";
   * responder side: each question delivered runs its responder exactly once, each answer written
     carries the tag of its question and the outcome its responder produced; at most one answer per
     question; _ask tags of outstanding questions are unique.
@@ -34,7 +39,8 @@ from vf.engines.netsim import Link
 LEVEL = "exploration"
 ENGINE = "E2-netsim"
 TECHNIQUE = "runtime monitoring: exactly-once + causal matching of callRemote results against the sniffed wire, with disconnect injection"
-RULE = ("(1) random sessions: 6..40 weighted scheduler actions (calls from either peer with 6 responder modes, "
+RULE = ("(1) random sessions: 6..40 weighted scheduler actions (calls from either peer with 6 responder modes, 30% "
+        "with a re-entrant follow-up call issued from the result callback/errback, "
         "deliveries of 1 byte/half/all, firing of pending responder Deferreds in any order with 4 outcomes, abrupt "
         "or graceful close, calls after the loss); (2) fault enumeration: random short scripts (2..5 calls, fires) "
         "re-run once per byte boundary of the whole exchange with an abrupt loss injected at that boundary.  A "
@@ -45,7 +51,8 @@ ASSUMPTIONS = ["trusted base: the wire sniffer in this module (16-bit length-pre
 SHARDS = {"quick": 4, "thorough": 16}
 FLOORS = {"sessions": 500, "calls": 3000, "deferreds_checked": 2500, "fired_by_answer": 800, "fired_by_connection_loss": 300,
           "fired_declared_error": 100, "fired_unknown_remote_error": 100, "calls_after_loss": 300, "responder_runs": 1500,
-          "deferred_responders_fired": 200, "boundary_runs": 1500, "quit_closes": 100, "calls_with_3_outstanding": 100}
+          "deferred_responders_fired": 200, "boundary_runs": 1500, "quit_closes": 100, "calls_with_3_outstanding": 100,
+          "followups_during_connection_loss": 200, "followups_during_answer_delivery": 200, "followups_inside_callremote": 50}
 READY = True
 
 MODES = ("now", "later", "declared", "undeclared", "never", "fatal")
@@ -256,7 +263,7 @@ class Session:
         if op == "budget":
             self.budget = label[1]
         elif op == "call":
-            self.do_call(label[1], label[2], label[3])
+            self.do_call(label[1], label[2], label[3], label[4] if len(label) > 4 else 0)
         elif op == "deliver":
             self.do_deliver(label[1], label[2])
         elif op == "fire":
@@ -272,7 +279,10 @@ class Session:
             self.do_pump()
         self.sniff_tx()
 
-    def do_call(self, name, mode, ra):
+    def do_call(self, name, mode, ra, follow=0, parent=None):
+        """follow = m+1: the user callback/errback of this call re-entrantly issues one follow-up
+        callRemote (responder mode m, no further follow-up) from wherever the Deferred fires:
+        during an answer delivery, during connectionLost handling, or inside callRemote itself."""
         k = self.k
         nonce = self.next_nonce
         self.next_nonce += 1
@@ -281,8 +291,9 @@ class Session:
         was_lost = bool(side.lost)
         written_before = len(side.transport.written)
         outstanding = sum(1 for c in self.calls.values() if c["side"] == name and c["ra"] and not c["fired"])
+        issued_in = self.now()
         rec = {"side": name, "mode": MODES[mode], "ra": ra, "after_loss": was_lost, "fired": [], "returned": None, "wrote": 0,
-               "outstanding_before": outstanding}
+               "outstanding_before": outstanding, "follow": follow, "parent": parent, "issued_in": issued_in[0] if issued_in else None}
         self.calls[nonce] = rec
         self.push(("call", name, nonce))
         try:
@@ -293,12 +304,19 @@ class Session:
                 rec["returned"] = "raised %s: %s" % (type(e).__name__, e)
                 d = None
             if d is not None:
-                d.addCallbacks(lambda r, rec=rec: rec["fired"].append(("ok", dict(r), self.now())) and None,
-                               lambda f, rec=rec: rec["fired"].append(("err", f, self.now())) and None)
+                def fired(result, kind):
+                    rec["fired"].append((kind, dict(result) if kind == "ok" else result, self.now()))
+                    if rec["follow"] and len(rec["fired"]) == 1:
+                        self.do_call(name, rec["follow"] - 1, 1, 0, parent=nonce)  # re-entrant follow-up
+                    return None
+                d.addCallbacks(fired, fired, callbackArgs=("ok",), errbackArgs=("err",))
             rec["fired_on_return"] = len(rec["fired"])
         finally:
             self.pop()
         rec["wrote"] = len(side.transport.written) - written_before
+        if rec["follow"] and rec.get("fired_on_return"):
+            # the follow-up was issued (and accounted for) inside this call's window: do not count its bytes twice
+            rec["wrote"] -= sum(c["wrote"] for c in self.calls.values() if c["parent"] == nonce)
 
     def _move(self, src_name, n):
         """Deliver up to n bytes written by src to the other side inside a causal window."""
@@ -475,6 +493,8 @@ class Session:
         for nonce, c in sorted(self.calls.items()):
             n = c["side"]
             ctx.count("calls")
+            if c["parent"] is not None:
+                ctx.count({"lost": "followups_during_connection_loss", "deliver": "followups_during_answer_delivery"}.get(c["issued_in"], "followups_inside_callremote"))
             if c["after_loss"]:
                 ctx.count("calls_after_loss")
                 if c["wrote"]:
@@ -529,6 +549,7 @@ class Session:
 
     def summary(self):
         return {"calls": {n: (c["side"], c["mode"], "ask" if c["ra"] else "tell", "after-loss" if c["after_loss"] else "live",
+                              "follow-up of %s issued in %s" % (c["parent"], c["issued_in"]) if c["parent"] is not None else "top-level",
                               [(f[0], repr(f[1])[:60], f[2]) for f in c["fired"]]) for n, c in self.calls.items()},
                 "responders": {n: (r["side"], r["runs"], r["outcome"]) for n, r in self.responders.items()},
                 "bytes_moved": self.bytes_moved, "lost": {n: repr(r) for n, r in self.lost_reason.items()}}
@@ -556,7 +577,9 @@ def choose(rng, s):
             break
     if a == "call":
         mode = rng.choice([0, 0, 0, 0, 1, 1, 1, 1, 2, 2, 4, 4, 3, 5]) if rng.random() < 0.93 else rng.randrange(6)
-        return ("call", rng.choice("ab"), mode, 1 if rng.random() < 0.85 else 0)
+        ra = 1 if rng.random() < 0.85 else 0
+        follow = rng.randint(1, 6) if ra and rng.random() < 0.3 else 0
+        return ("call", rng.choice("ab"), mode, ra, follow)
     if a.startswith("deliver"):
         return ("deliver", a[-1], rng.choice(["1", "half", "all", "all"]))
     if a.startswith("fire"):
@@ -571,7 +594,8 @@ def gen_script(rng):
     labels = []
     for _ in range(rng.randint(2, 5)):
         mode = rng.choice([0, 0, 1, 1, 2, 3, 4, 5]) if rng.random() < 0.9 else rng.randrange(6)
-        labels.append(("call", rng.choice("ab"), mode, 1 if rng.random() < 0.9 else 0))
+        ra = 1 if rng.random() < 0.9 else 0
+        labels.append(("call", rng.choice("ab"), mode, ra, rng.choice([1, 1, 2, 3, 5]) if ra and rng.random() < 0.35 else 0))
         if rng.random() < 0.3:
             labels.append(("deliver", rng.choice("ab"), rng.choice(["half", "all"])))
     labels.append(("pump",))
